@@ -7,7 +7,7 @@ from .. import core
 from .. import grammar as G
 from .. import oracle as O
 
-RULE = ("Families: weekday name (every spelling of the frozen vocabulary, 7 days), day of month 1-31 (8 "
+RULE = ("Families: weekday + day of month ('Sunday 31.', 'Friday the 13th'), weekday name (every spelling of the frozen vocabulary, 7 days), day of month 1-31 (8 "
         "notations), day+month without year for all 366 pairs incl. 29 Feb (numeric and every month "
         "spelling), parts of day (every spelling of the 10 parts, plus single early/late/very modifiers) "
         "x reference dates x boundary times of day (00:00, 12:43, 23:59:59.999999, the part's own start "
@@ -36,6 +36,16 @@ def expected(fam, par, ref):
         return O.Tdate(O.next_dom_strict(d, par))
     if fam == "doy":
         return O.Tdate(O.next_doy_on_or_after(d, par[1], par[0]))
+    if fam == "wddom":
+        # first date on or after today that is this weekday AND this day of month (the property fixes no
+        # convention for 'today' here: both today and the next one are accepted, see check_item)
+        wd, n = par
+        c = d
+        for _ in range(366 * 30):
+            if c.weekday() == wd and c.day == n:
+                return O.Tdate(c)
+            c += dt.timedelta(days=1)
+        raise AssertionError("no such date")
     if fam == "pod":
         h = pod_start(par)
         day = d if h * 60 > ref.hour * 60 + ref.minute else d + dt.timedelta(days=1)
@@ -47,6 +57,8 @@ def nontrivial(fam, par, ref, exp):
     d = ref.date()
     if fam == "doy" and tuple(par) == (29, 2):
         return True
+    if fam == "wddom":
+        return True
     if fam == "dom" and par > O.mdays(d.year, d.month):
         return True
     return (exp[1], exp[2]) != (d.year, d.month)
@@ -55,6 +67,8 @@ def nontrivial(fam, par, ref, exp):
 def check_item(fam, par, text, ref):
     if fam == "doy":
         par = tuple(par)
+    if fam == "wddom":
+        par = tuple(par)
     exp = expected(fam, par, ref)
     try:
         got = O.bestval(text, ref)
@@ -62,6 +76,22 @@ def check_item(fam, par, text, ref):
         return ("parse-raises(see C01):" + type(e).__name__, repr(e))
     if got == exp:
         return None
+    if fam == "wddom":
+        detail = "{!r} at {} -> {} expected {}".format(text, ref.isoformat(), O.vstr(got), O.vstr(exp))
+        if got is None or got[0] != "T" or None in got[1:4] or not O.valid_date(got[1], got[2], got[3]):
+            return ("wddom:no-date", detail)
+        gd = dt.date(got[1], got[2], got[3])
+        if gd < ref.date():
+            return ("wddom:before-reference-date", detail)
+        if gd.weekday() != par[0] or gd.day != par[1]:
+            return ("wddom:written-weekday-or-day-not-preserved", detail)
+        ed = dt.date(exp[1], exp[2], exp[3])
+        if ed == ref.date():
+            # today matches: the following occurrence is acceptable as well
+            nxt = expected(fam, par, dt.datetime.combine(ref.date() + dt.timedelta(days=1), dt.time(0, 0)))
+            if got == nxt:
+                return None
+        return ("wddom:not-the-nearest-occurrence", detail)
     detail = "{!r} at {} -> {} expected {}".format(text, ref.isoformat(), O.vstr(got), O.vstr(exp))
     if got is None or got[0] != "T" or None in got[1:4]:
         return (fam + ":no-date", detail)
@@ -85,7 +115,7 @@ def check_item(fam, par, text, ref):
 
 
 def do(acc, fam, par, text, ref, origin):
-    exp = expected(fam, tuple(par) if fam == "doy" else par, ref)
+    exp = expected(fam, tuple(par) if fam in ("doy", "wddom") else par, ref)
     r = check_item(fam, par, text, ref)
     nt = nontrivial(fam, par, ref, exp)
     acc.case((text, ref), nontrivial=nt, cls=[origin, "family:" + fam, "nontrivial" if nt else "same-month"],
@@ -106,6 +136,12 @@ def all_items():
         for d in range(1, O.mdays(2020, m) + 1):
             for f in G.doy_forms(d, m):
                 items.append(("doy", (d, m), f))
+    for wd in range(7):
+        for n in (1, 13, 28, 29, 30, 31):
+            for tpl in ("{wd} {n}.", "{wd} the {n}th", "{wd} {n}th", "{wdde} {n}.", "{wdde} den {n}."):
+                t = tpl.format(wd=G.WEEKDAY_CANON[wd].capitalize(), wdde=G.WEEKDAY_CANON_DE[wd].capitalize(), n=n)
+                t = t.replace("1th", "1st").replace("31th", "31st").replace("13st", "13th")
+                items.append(("wddom", (wd, n), t))
     for key, forms in G.POD_FORMS.items():
         for f in forms:
             items.append(("pod", key, f))
